@@ -185,6 +185,22 @@ func rulePairDirect(c *Ctx) {
 					return []Ev{{Kind: "release:bad", Note: "direct/count arguments are not (true, 1)", Stop: true}}
 				}
 			}
+			// the request's own answer: the root's callback called with a nil / non-nil error
+			if call, ok := in.(ssa.CallInstruction); ok && !call.Common().IsInvoke() && call.Common().StaticCallee() == nil {
+				if _, isB := call.Common().Value.(*ssa.Builtin); !isB {
+					r := t.Resolve(fr, call.Common().Value)
+					if prm, isP := r.V.(*ssa.Parameter); isP && r.Fr == t.RootFr && len(call.Common().Args) > 0 {
+						_ = prm
+						last := call.Common().Args[len(call.Common().Args)-1]
+						if isErrorType(last.Type()) {
+							if isNilConst(t.Resolve(fr, last).V) {
+								return []Ev{{Kind: "reply:ok"}}
+							}
+							return []Ev{{Kind: "reply:err"}}
+						}
+					}
+				}
+			}
 			return nil
 		}
 		sp.Branch = func(t *Tracer, fr *Frame, i *ssa.If, dir bool) []Ev {
@@ -290,6 +306,14 @@ func rulePairDirect(c *Ctx) {
 				// being already sent to the client (through a reference) is not a grant
 				if bad == "" && !hasKind(path, "granted") && !hasKind(path, "escape") {
 					bad = "a direct subscription is kept on a path that did not pass a get grant: the client holds (and keeps receiving the events of) a resource no access answer allowed: " + tr.FmtPath(path)
+				}
+			case keep && replyOKBeforeFail(path):
+				// the client was told it holds the resource (a resource response counts as a direct
+				// subscription, whatever the resource's own load outcome): nothing is released. (The answer
+				// that carries an access error in place of the resource — sent after the failed grant — hands
+				// nothing over and keeps nothing: C04 forbids keeping it.)
+				if rel != 0 {
+					bad = "the request is answered with success — the client now counts one direct subscription — and the gateway releases it: a later unsubscribe fails with noSubscription: " + tr.FmtPath(path)
 				}
 			default:
 				if rel != 1 {
@@ -1305,4 +1329,19 @@ func strictOnce(p *Prog, fn *ssa.Function, idx int, memo map[string]string, dept
 	}
 	memo[key] = why
 	return why
+}
+
+
+// replyOKBeforeFail: the request was answered with success on a path that had
+// met no failure (denied access, load error) up to that answer.
+func replyOKBeforeFail(path []Ev) bool {
+	for _, e := range path {
+		switch e.Kind {
+		case "fail", "acqfail":
+			return false
+		case "reply:ok":
+			return true
+		}
+	}
+	return false
 }
